@@ -90,7 +90,7 @@ def edge_floors(k):
               "edge_zero_operator_checked": 18 * k, "edge_identity_checked": 24 * k, "edge_f_forms_compared": 12 * k,
               "edge_vector_forms": 8 * k, "edge_expmv_judged": 8 * k, "edge_eigs_judged": 8 * k, "edge_lin_solver_judged": 8 * k,
               "sector_dim_1:expmv": 3 * k, "sector_dim_1:eigs": 3 * k, "sector_dim_1:lin": 3 * k, "sector_dim_1:edge": 1 * k,
-              "eigs_degenerate_extremal": 8 * k, "edge_lin_solver_nearly_singular": 2 * k,
+              "eigs_degenerate_extremal": 8 * k, "edge_lin_solver_nearly_singular": 1 * k,
               "start_vector_poorer_fusion_history": 3 * k, "start_vector_richer_fusion_history": 2 * k})
     for w in ("SR", "LR", "LM", "SM"):
         for h in ("hermitian-map", "non-hermitian-map"):
@@ -355,7 +355,7 @@ def draw_legs(rng, sym, rank, dlo, dhi, nmax_full):
     raise CaseSkip
 
 
-def gen_problem(rng, nprng, sym, tier, want_small=False, drange=None, dtype=None, rank=None, kind=None):
+def gen_problem(rng, nprng, sym, tier, want_small=False, drange=None, dtype=None, rank=None, kind=None, herm=None):
     import yastn
     P = Problem()
     P.sym = sym
@@ -364,6 +364,8 @@ def gen_problem(rng, nprng, sym, tier, want_small=False, drange=None, dtype=None
     if kind is not None:
         P.kind = kind
     P.herm = rng.random() < 0.55
+    if herm is not None:
+        P.herm = herm
     P.dtype = rng.choice(("float64", "complex128"))
     if dtype is not None:
         P.dtype = dtype
@@ -1379,7 +1381,7 @@ def case_edge(ctx, P, rng, nprng, scen):
             if not same_result(base, yastn.eigs(f, yv, **E, **extra), P):
                 differ("unused-argument", f"eigs(..., {extra}) differs from the call without it although the argument is documented as not implemented")
     elif scen == "defaults:lin_solver":
-        if P.herm and P.d <= 9 and rng.random() < 0.6:
+        if P.herm and P.d <= 9 and rng.random() < 0.8:
             # nearly singular map (one eigenvalue ~1e-11 ||A||): the only regime where the pseudo-inverse cut-off matters
             lam_ = np.linalg.eigvalsh(P.M)
             add_shift(P, float(-lam_[rng.randrange(P.d)] + 1e-11 * P.nrm))
@@ -1663,8 +1665,9 @@ def run_case(ctx, idx):
             needs_rank2 = fh or scen in ("lazy-vector", "fused-vector:hard", "fused-vector:meta", "zero-filled-blocks")
             for _attempt in range(6 if fh else 1):
                 try:
-                    P = gen_problem(rng, nprng, sym, ctx.tier,
-                                    drange=(1, 1) if (tiny and not needs_rank2 and scen != "defaults:eigs") else ((4, 40) if fh else (2, 40)),
+                    nsing = scen == "defaults:lin_solver" and rng.random() < 0.6     # small Hermitian map for the nearly singular regime
+                    P = gen_problem(rng, nprng, sym, ctx.tier, herm=True if nsing else None,
+                                    drange=(2, 9) if nsing else (1, 1) if (tiny and not needs_rank2 and scen != "defaults:eigs") else ((4, 40) if fh else (2, 40)),
                                     dtype="complex128" if scen == "dtype-mismatch" else None,
                                     rank=rng.choice((2, 2, 3)) if needs_rank2 else None, kind="full" if fh else None)
                 except CaseSkip:
